@@ -21,7 +21,7 @@ type HookFn func(st *State, args []Value) Value
 
 type Stats struct {
 	Paths, PathsDone, PathsInfeasible, PathsBound, PathsUnsupported, PathsPanicked int
-	Instrs, Forks, Queries, UnknownBranch                                         int
+	Instrs, Forks, Queries, UnknownBranch, FallbackProved                        int
 }
 
 // Program is the loaded, built SSA program shared by all engines.
@@ -79,6 +79,9 @@ type Engine struct {
 	eqHook   func(st *State, a, b Value) (*Term, bool)
 	zeroHooks []func(t types.Type) (Value, bool)
 	Trace    bool
+	Observations []string
+	Fallbacks []string
+	fb       map[string]*Solver
 	predDeclared map[string]bool
 	Deadline time.Time
 	initPhase bool
@@ -173,6 +176,7 @@ func NewEngine(p *Program, solver string, timeoutMs int) (*Engine, error) {
 		encoded: map[string]bool{}, used: map[string]bool{}, opaque: map[string]int{},
 		EndReasons: map[string]int{}, Reached: map[string]int{}, predDeclared: map[string]bool{},
 		IntMode: true,
+		Fallbacks: []string{"cvc5", "z3-new", "z3"},
 	}
 	s, err := NewSolver(solver, timeoutMs)
 	if err != nil {
@@ -187,6 +191,9 @@ func NewEngine(p *Program, solver string, timeoutMs int) (*Engine, error) {
 	registerIntrinsics(e)
 	registerLibHooks(e)
 	registerPathHooks(e)
+	registerReflectModel(e)
+	registerConstModel(e)
+	registerBigIntrinsics(e)
 	return e, nil
 }
 
@@ -232,7 +239,31 @@ func (e *Engine) Fork(workerID int, solver string, timeoutMs int) (*Engine, erro
 	return n, nil
 }
 
-func (e *Engine) Close() { e.Solver.Close() }
+func (e *Engine) Close() {
+	e.Solver.Close()
+	for _, s := range e.fb {
+		s.Close()
+	}
+}
+
+func (e *Engine) fallbackSolver(name string) *Solver {
+	if name == e.SolverName {
+		return nil
+	}
+	if e.fb == nil {
+		e.fb = map[string]*Solver{}
+	}
+	if s, ok := e.fb[name]; ok {
+		return s
+	}
+	s, err := NewSolver(name, 3*e.TimeoutMs)
+	if err != nil {
+		e.fb[name] = nil
+		return nil
+	}
+	e.fb[name] = s
+	return s
+}
 
 func (e *Engine) isTargetPkg(p *ssa.Package) bool {
 	return p != nil && e.P.Targets[p.Pkg.Path()]
@@ -391,6 +422,18 @@ func (e *Engine) runtimeErrorValue(kind, detail string) Value {
 }
 
 func (e *Engine) implements(t types.Type, it *types.Interface) bool {
+	if isConstModelType(t) {
+		// the model types of go/constant implement constant.Value (recognised by its unexported method)
+		for i := 0; i < it.NumMethods(); i++ {
+			if it.Method(i).Name() == "implementsValue" {
+				return true
+			}
+		}
+		return it.NumMethods() == 0
+	}
+	if t == rtypeDyn || t == opaqueDyn {
+		return true
+	}
 	return types.Implements(t, it)
 }
 
